@@ -94,7 +94,17 @@ impl<'a> Run<'a> {
 }
 
 fn pick_entries<'a>(cat: &'a Catalog, rng: &mut Rng, n: usize) -> Vec<usize> {
-    (0..n).map(|_| rng.usize_below(cat.builtins)).collect()
+    // half built-in type expressions (and hand-written declarations), half declarations of the
+    // generated evolution families
+    (0..n)
+        .map(|_| {
+            if rng.chance(1, 2) || cat.entries.len() == cat.builtins {
+                rng.usize_below(cat.builtins)
+            } else {
+                cat.builtins + rng.usize_below(cat.entries.len() - cat.builtins)
+            }
+        })
+        .collect()
 }
 
 fn encode(e: &Entry, v: &Val) -> Option<Vec<u8>> {
